@@ -71,7 +71,7 @@ DriftRec(r) ==
       real == [i \in 1..Len(vs) |-> VOf(r, vs[i].name).out]
       ref == [i \in 1..Len(vs) |-> RefOut(vs[i])]
       miss(M(_)) == \E i \in 1..Len(vs) : real[i] # M(vs[i]) IN
-  [aw |-> miss(LAMBDA v : ImplOut(v, AsWritten)), rf |-> miss(LAMBDA v : ImplOut(v, OnlyRenderFixed)),
+  [aw |-> miss(LAMBDA v : ImplOut(v, AsWritten)),
    fx |-> miss(LAMBDA v : ImplOut(v, Fixed)), ref |-> \E i \in 1..Len(vs) : real[i] # ref[i],
    undef |-> \E i \in 1..Len(vs) : ~Defined(ref[i])]
 DriftVec == Force([j \in 1..Len(DriftIdx) |-> DriftRec(Obs[DriftIdx[j]])])
@@ -88,7 +88,7 @@ Done == l = Len(Obs) + 1 =>
                ELSE [j \in 1..Len(BadIdx) |->
                        [k |-> BadIdx[j], id |-> Obs[BadIdx[j]].id, sig |-> Sig(Obs[BadIdx[j]]), nbad |-> nbad]])
           /\ ndJsonSerialize("drift.ndjson",
-               <<[records |-> Len(DriftIdx), aswritten |-> Count(LAMBDA x : x.aw), renderfixed |-> Count(LAMBDA x : x.rf),
+               <<[records |-> Len(DriftIdx), aswritten |-> Count(LAMBDA x : x.aw),
                   fixed |-> Count(LAMBDA x : x.fx), ref |-> Count(LAMBDA x : x.ref), ref_undefined |-> Count(LAMBDA x : x.undef),
                   aswritten_ids |-> [j \in 1..(IF Len(DriftAsWritten) < 20 THEN Len(DriftAsWritten) ELSE 20) |-> Obs[DriftIdx[DriftAsWritten[j]]].id],
                   calib_bad |-> Len(CalibBad), not_built |-> NotBuilt]>>)
